@@ -14,6 +14,10 @@ which states what it needs from it.
 namespace SaVerif.Props.C14
 open SaVerif.Topo SaVerif.Ddl
 
+/-- t1 ↔ t2 (used by the non-vacuity example of `second_sort_total_unconditional`) -/
+def cexIsolatedPre : List Tbl :=
+  [⟨1, [⟨10, 2, false, true⟩], [], []⟩, ⟨2, [⟨11, 1, false, true⟩], [], []⟩]
+
 /-! ## sort_tables_and_constraints -/
 
 /-- every table exactly once, whatever the graph -/
@@ -135,9 +139,20 @@ theorem second_sort_total_of_exact_cycles (cyc : List Edge → List Nat) (tables
   obtain ⟨x, hx, hon⟩ := closed_set_has_cycle hne hclosed
   exact ⟨x, hx, hcyc x hon⟩
 
+/-- **second_sort_total_unconditional**: for the real `find_cycles` (C19's
+    `find_cycles_exact` discharges the hypothesis): with `filter_fn=None` and no
+    `add_is_dependent_on` edges, `sort_tables_and_constraints` — hence create_all's sort
+    and `sorted_tables` — never raises, whatever the foreign-key graph. -/
+theorem second_sort_total_unconditional (tables : List Tbl)
+    (hn : (ids tables).Nodup) (hnoextra : ∀ t ∈ tables, t.extra = []) :
+    ∃ s, sortTC fltCreate [] tables = some s :=
+  second_sort_total_of_exact_cycles findCycles tables hn hnoextra
+    (fun x hx => (Props.C19.find_cycles_exact _ x).2 hx)
+
 /-- a two-table cycle: both nodes are on a cycle in the sense of `OnCycle` -/
-example : OnCycle [(1, 2), (2, 1)] 1 :=
-  Reach.tail (b := 2) (Reach.step (by decide)) (by decide)
+example : OnCycle [(1, 2), (2, 1)] 1 := ⟨2, by decide, .tail (.refl 2) (by decide)⟩
+example : ∃ s, sortTC fltCreate [] cexIsolatedPre = some s :=
+  second_sort_total_unconditional _ (by decide) (by decide)
 
 /-! ## create_all on a strict backend -/
 
